@@ -81,7 +81,7 @@ PROPS['C18'] = dict(
 )
 
 NOT_APPLICABLE = {}
-HOOK_COMMITS = []
+HOOK_COMMITS = ['cdfb811', 'ae3a54c']
 
 _RT_RULE = ("rt suite: a caller-built value of one of 13 message kinds (tags of every length class, int64 edge "
             "timestamps, EventTimes in the 32-bit domain in several zones, type-directed records: every int/uint "
@@ -375,4 +375,56 @@ PROPS['C17'] = dict(
                 "operation result + frames + closes + dials equal the model's; gated schedules and concurrent runs as search.",
     assumptions=_CONC_ASSUME + ["ws.Connection is used through its observable behaviour (frames, underlying close, Closed()); its own "
                                 "close protocol is C15/C16"],
+)
+
+
+_WC_RULE = ("wsconn suite: the real ws.Connection over an instrumented ext.Conn (counts goroutines inside WriteMessage / ReadMessage, "
+            "records frames and underlying closes), each case in a child process: closers (n = 1..24 goroutines call Close at once, "
+            "with or without a running Listen, against a peer that echoes the close frame / stays silent / closes first with 1000 or "
+            "1001 / severs the transport / fails the write), relisten (Listen again k times after closure; k = 0: second Listen on a "
+            "live connection), writers (data-frame writers racing two closers); plus wsconc through WSClient. distinct = distinct "
+            "(scenario, n, listen, peer, seed); non-trivial = every run")
+_WC_SUITES = [dict(suite='wsconn', n=dict(quick=400, thorough=6000), shards=dict(quick=4, thorough=16), trivial=r'^-$'),
+              dict(suite='wsconc', n=dict(quick=6, thorough=60), shards=dict(quick=1, thorough=4), trivial=r'^-$')]
+_WC_ASSUME = _CONC_ASSUME + ["the closers model abstracts the close handshake to: state gate under the state lock, frame write, wait for the "
+                             "reader (or the deadline), underlying close; wall-clock bounds are checked on the real runs only "
+                             "(close deadline 150 ms + 400 ms slack)",
+                             "gorilla/websocket itself is not modelled: ext.Conn is replaced by the instrumented fake"]
+
+PROPS['C15'] = dict(
+    translator=True,
+    lean_modules=['FluentVerif.Props.C15', 'FluentVerif.Conc.Lockset', 'FluentVerif.Tie.Conc'],
+    theorems=['FV.WsCl.C15_closers', 'FV.WsCl.C15_open_monotone', 'FV.WsCl.C15_closer_enabled', 'FV.WsCl.C15_loser',
+              'FV.WsR.C15_done_closed_once', 'FV.WsR.C15_legacy_witness', 'FV.Tie.wsConn_lockset', 'FV.Tie.C16_one_writer'],
+    suites=_WC_SUITES,
+    race_suites=[('wsconn', dict(quick=12, thorough=120))],
+    rule=_WC_RULE,
+    explanation="Closers model (any number of goroutines in CloseWithMsg, a reader, arbitrary interleaving): C15_closers — at most one "
+                "close frame, at most one underlying close, at most one goroutine past the state gate; C15_open_monotone — once not "
+                "open, never open again; C15_closer_enabled — a closer past the gate always has a step (deadline), so it terminates; "
+                "C15_loser — every other closer returns 'multiple close calls'. Reader model: C15_done_closed_once — the done channel "
+                "is closed at most once under every schedule of Listen calls (C15_legacy_witness: twice without the Once, the pinned "
+                "crash). Tie: regenerated lockset graph of ws/connection.go (state accesses under stateLock, writes under writeLock). "
+                "Oracle on real runs: <= 1 proceeding Close, <= 1 close frame, exactly 1 underlying close, Closed() true and never "
+                "reverting, every Close back within deadline + slack, Listen returns (nil after a normal closure, the error otherwise), "
+                "later Listen calls return without crashing.",
+    assumptions=_WC_ASSUME,
+)
+
+PROPS['C16'] = dict(
+    translator=True,
+    lean_modules=['FluentVerif.Props.C15', 'FluentVerif.Conc.Lockset', 'FluentVerif.Tie.Conc'],
+    theorems=['FV.WsR.C16_one_reader', 'FV.Tie.C16_one_writer', 'FV.Tie.wsConn_lockset', 'FV.Tie.readMessage_only_in_readLoop',
+              'FV.Tie.readLoop_spawned_only_by_Listen', 'FV.Tie.writeMessage_single_site'],
+    suites=_WC_SUITES,
+    race_suites=[('wsconn', dict(quick=12, thorough=120))],
+    rule=_WC_RULE,
+    explanation="C16_one_writer: check_sound on the regenerated graph of ws/connection.go — the single call site of Conn.WriteMessage "
+                "(writeMessage_single_site) is under writeLock exclusively, so data frames and the close frame never overlap, under "
+                "every schedule. C16_one_reader: reader model (any number of Listen calls, arbitrary interleaving): at most one "
+                "thread is ever between the listening gate and the end of its read loop; the translator facts tie it: ReadMessage "
+                "is called only in runReadLoop, which is spawned only by Listen. Oracle on real runs: the instrumented ext.Conn "
+                "never sees two goroutines inside WriteMessage or inside ReadMessage; a second Listen returns the already-listening "
+                "error.",
+    assumptions=_WC_ASSUME,
 )
